@@ -32,5 +32,8 @@ with ThreadPoolExecutor(max_workers=6) as ex:
         out[name] = {'detected_by': hits, 'errors': errs}
         print('%-55s %s%s' % (name, ' '.join('%s(%d)' % (k, len(v)) for k, v in sorted(hits.items())) or 'MISSED', '  ERR:%s' % errs if errs else ''))
 json.dump(out, open(os.path.join(VERIF, 'seeded', 'RESULTS.json'), 'w'), indent=1)
+if which == 'all':
+    cat = {k: sorted(v.get('detected_by', {})) for k, v in out.items() if v.get('detected_by')}
+    json.dump(cat, open(os.path.join(VERIF, 'mutants', 'CATALOG.json'), 'w'), indent=1)
 missed = [k for k, v in out.items() if not v.get('detected_by')]
 print('\n%d patches, %d missed: %s' % (len(out), len(missed), missed))
